@@ -31,7 +31,7 @@ FUNCTIONS = [
     "ombott.request_pkg.body_mixin:BodyMixin._body", "ombott.error_render:render",
 ]
 STUBS = ["PyBytesIO for io.BytesIO/TemporaryFile inside body_mixin"]
-ASSUMPTIONS = ["one worker thread; requests served strictly one after another; the server iterates and closes each response"]
+ASSUMPTIONS = ["every application of a query gets an errors_map with the default contents but objects of its own (the default map is shared process-wide)", "one worker thread; requests served strictly one after another; the server iterates and closes each response"]
 OUTSIDE = ["histories longer than 3", "request kinds outside the enumerated list", "symbolic text longer than 1-2 characters",
            "actual garbage-collector liveness (decided in inductive graph form instead)",
            "persistent containers not enumerated by the signature function"]
@@ -51,8 +51,16 @@ class Err:
         self.buf.append(t)
 
 
+def fresh_errors_map():
+    """same mapping as DefaultConfig.errors_map but with objects of its own: the default map is a class attribute
+    shared by every application of the process, so state leaking into its objects would also leak from one explored
+    path into the next (and into the 'fresh application' reference) and blur the verdict"""
+    from ombott.ombott import DefaultConfig
+    return {cls: HTTPError(e.status_code, e.body) for cls, e in DefaultConfig.errors_map.items()}
+
+
 def build_app(state):
-    app = ombott.Ombott({"max_body_size": 4})
+    app = ombott.Ombott({"max_body_size": 4, "errors_map": fresh_errors_map()})
 
     @app.route("/ok")
     def ok():
@@ -220,7 +228,7 @@ def queries(tier):
                      "ASCII string of <= 1 character, status written from %r, Accept json or not" % (k, STATUS),
                      timeout=150 if not T else 400, per_path_timeout=40, expect_cover=["ok"], family="retention"))
     firsts = KINDS
-    seconds = ["ok", "404", "badpath", "crash", "body"] if not T else KINDS
+    seconds = ["ok", "404", "badpath", "crash", "body", "badchunk", "oversize"] if not T else KINDS
     for k1 in firsts:
         for k2 in seconds:
             for j2 in ((False,) if not T else (False, True)):
